@@ -2,8 +2,8 @@
    from C13/Proofs.v and followed by Print Assumptions. The model [fd] is the
    interpreter (C13/Model.v) of the tables REGENERATED from
    odl/discr/diff_ops.py:finite_diff into Gen/FiniteDiff.v. *)
-From Coq Require Import Reals List Bool.
-From Verif Require Import Base.Num Base.Vec Base.VecR C13.Syntax Gen.FiniteDiff C13.Model C13.Proofs.
+From Coq Require Import QArith Qreals Reals Lia List Bool.
+From Verif Require Import Base.Num Base.Vec Base.VecR Lib.Axis Lib.AxisR C13.Syntax Gen.FiniteDiff C13.Model C13.ModelNd C13.Proofs C13.ProofsNd C13.ProofsLap C13.ProofsAffine C13.ProofsLinear Base.Transfer C13.Transfer.
 Import ListNotations.
 Local Open Scope R_scope.
 
@@ -61,3 +61,114 @@ Example adj_tables_involutive :
      Central, Central | Forward, Forward | Backward, Backward => true | _, _ => false end) all_meths = true
   /\ forallb (fun p => is_base p || is_base (adj_padding p)) all_pmodes = true.
 Proof. split; vm_compute; reflexivity. Qed.
+
+(* ---- N-d lift: arrays of EVERY shape (flat C order), every axis ----
+   [axis_ok shape m p ax]: the axis has at least 2 points and the boundary
+   tables of the pair and of its adjoint pair only read existing entries
+   (true from 3 points on for every pair, see side_conditions_hold_from_3).
+   [mdot] is the inner product of the product space (sum over components),
+   [prodn shape] the number of entries. *)
+
+(* T1: PartialDerivative along any axis of an array of any shape: the operator
+   the code returns as adjoint (minus the adjoint-table pair along the same
+   axis) satisfies <D x, y> = <x, D* y>. *)
+Theorem pderiv_adjoint_all_shapes :
+  forall (shape : list nat) (ax : nat) (m : meth) (p : pmode) (dx : R) (x y : list R),
+  (ax < length shape)%nat -> axis_ok shape m p ax -> dx <> 0 ->
+  length x = prodn shape -> length y = prodn shape ->
+  dot (pderiv shape ax m p 0 dx x) y = dot x (pderiv_adjoint shape ax m p dx y).
+Proof.
+  intros shape ax m p dx x y Hax Hok Hdx Hx Hy. unfold pderiv_adjoint.
+  rewrite dot_vopp_r. exact (pderiv_adjoint_nd shape ax m p dx x y Hax Hok Hdx Hx Hy).
+Qed.
+Print Assumptions pderiv_adjoint_all_shapes.
+
+(* T1: Gradient* = -Divergence (with the adjoint-table pair), all shapes. *)
+Theorem gradient_adjoint_all_shapes :
+  forall (shape : list nat) (m : meth) (p : pmode) (dxs x : list R) (ys : list (list R)),
+  length dxs = length shape -> length ys = length shape ->
+  (forall i, (i < length shape)%nat -> axis_ok shape m p i) ->
+  Forall (fun dx => dx <> 0) dxs ->
+  length x = prodn shape -> Forall (fun y => length y = prodn shape) ys ->
+  mdot (gradient shape m p 0 dxs x) ys = dot x (gradient_adjoint shape m p dxs ys).
+Proof. exact gradient_adjoint_nd. Qed.
+Print Assumptions gradient_adjoint_all_shapes.
+
+(* T1: Divergence* = -Gradient (with the adjoint-table pair), all shapes. *)
+Theorem divergence_adjoint_all_shapes :
+  forall (shape : list nat) (m : meth) (p : pmode) (dxs : list R) (xs : list (list R)) (y : list R),
+  length dxs = length shape -> length xs = length shape ->
+  (forall i, (i < length shape)%nat -> axis_ok shape m p i) ->
+  Forall (fun dx => dx <> 0) dxs ->
+  length y = prodn shape -> Forall (fun x => length x = prodn shape) xs ->
+  dot (divergence shape m p 0 dxs xs) y = mdot xs (divergence_adjoint shape m p dxs y).
+Proof. exact divergence_adjoint_nd. Qed.
+Print Assumptions divergence_adjoint_all_shapes.
+
+Example axis_ok_example : forall i, (i < 3)%nat -> axis_ok [3; 2; 5]%nat Forward PSymmetric i.
+Proof.
+  intros i Hi. destruct i as [|[|[|i]]]; try lia; repeat split; cbn [nth]; try lia; vm_compute; reflexivity.
+Qed.
+
+(* T1: Laplacian (sum over axes of forward minus backward differences with
+   step dx^2).  Laplacian.adjoint returns a Laplacian with the SAME pad_mode;
+   for each of the six modes the class accepts, every shape with >= 2 points
+   per axis and all cell sides this is the exact transpose. *)
+Theorem laplacian_selfadjoint_all_shapes :
+  forall (shape : list nat) (p : pmode) (dxs x y : list R),
+  lap_mode p = true -> length dxs = length shape ->
+  (forall i, (i < length shape)%nat -> (2 <= nth i shape 0)%nat) ->
+  Forall (fun dx => dx <> 0) dxs ->
+  length x = prodn shape -> length y = prodn shape ->
+  dot (laplacian shape p 0 dxs x) y = dot x (laplacian_adjoint shape p dxs y).
+Proof. exact laplacian_selfadjoint_nd. Qed.
+Print Assumptions laplacian_selfadjoint_all_shapes.
+
+(* T1: the textbook statement for arrays of every shape: the partial derivative
+   along any axis applies the textbook stencil (on the line extended by the
+   named rule, divided by dx) to every line along that axis. *)
+Theorem pderiv_textbook_all_shapes :
+  forall (shape : list nat) (ax : nat) (m : meth) (p : pmode) (c dx : R) (x : list R),
+  textbook_pair m p = true -> (ax < length shape)%nat -> (min_size p <= nth ax shape 0)%nat ->
+  length x = prodn shape ->
+  pderiv shape ax m p c dx x = along_axis shape ax (fd_ref m p c dx) x.
+Proof.
+  intros shape ax m p c dx x Hp Hax Hn Hx. unfold pderiv.
+  apply along_axis_ext; try assumption.
+  intros l Hl. apply fd_textbook_list; [assumption | rewrite Hl; assumption].
+Qed.
+Print Assumptions pderiv_textbook_all_shapes.
+
+(* T1: the constant-padding variant is affine in the array and its exact
+   difference quotient -- the derivative the code returns -- is the same scheme
+   with pad_const = 0, for every method, length and pad constant. *)
+Theorem fd_constant_padding_derivative :
+  forall (m : meth) (c dx : R) (f h : list R),
+  (2 <= length f)%nat -> length f = length h ->
+  fd m PConstant c dx (vadd f h) = vadd (fd m PConstant c dx f) (fd m PConstant 0 dx h).
+Proof. exact fd_const_affine. Qed.
+Print Assumptions fd_constant_padding_derivative.
+
+(* Tie between the two instances: the model EXECUTED at Q by the correspondence
+   shards is the rational restriction of the model the theorems above are about
+   (Q2R commutes with fd, for the regenerated tables, whenever dx <> 0). *)
+Theorem fd_executed_is_restriction :
+  forall (m : meth) (p : pmode) (c dx : Q) (f : list Q), ~ (dx == 0)%Q ->
+  map Q2R (fd m p c dx f) = fd m p (Q2R c) (Q2R dx) (map Q2R f).
+Proof. exact fd_transfer. Qed.
+Print Assumptions fd_executed_is_restriction.
+
+(* T1: finite_diff is linear in (pad_const, array) jointly -- every method,
+   every one of the 10 padding modes, every length: the regenerated tables
+   contain only linear forms in the entries and the pad constant
+   ([tables_linear_true], a finite check over the regenerated file), hence
+     fd (a*c1 + c2) (a*f + h) = a * fd c1 f + fd c2 h.
+   With pad_const = 0 every mode is a linear operator (what is_linear reports;
+   with a nonzero constant the operator is affine), and applied to complex data
+   -- real coefficients acting on real and imaginary parts -- the result is the
+   finite difference of each part. *)
+Theorem fd_is_linear_in_constant_and_array :
+  forall (m : meth) (p : pmode) (a c1 c2 dx : R) (f h : list R), length f = length h ->
+  fd m p (a * c1 + c2) dx (lin a f h) = lin a (fd m p c1 dx f) (fd m p c2 dx h).
+Proof. exact fd_linear. Qed.
+Print Assumptions fd_is_linear_in_constant_and_array.
